@@ -131,6 +131,10 @@ def exhaustive_single_ops(ctx, out, judge, *, max_nodes, alphabet, typed=False, 
                 other = [(alphabet[0], [(alphabet[1], [])]), (alphabet[-1], [])]
                 if typed:   # kinds other than the default, so that a copy that loses the kind shows
                     other = [((alphabet[0], "a"), [((alphabet[1], "b"), [])]), ((alphabet[-1], "b"), [])]
+                if specs is not None:
+                    # the source's LAST top node shares its data_id (5) with a child of the target that holds other data: a copy of the
+                    # source's children collides at a non-first position, by id and not by ==
+                    other = [({"a": alphabet[0], "k": "a"}, [({"a": alphabet[1], "k": "b"}, [])]), ({"a": 11, "did": 5, "k": "b"}, [])]
                 setup = H.build_ops(spec, 0, typed) + H.build_ops(other, 1, typed)
                 # enumerate ops on a probe world
                 r0, s0 = setup_runner(ctx, dict(cfg, setup=setup, oracles=False))
@@ -169,6 +173,8 @@ def exhaustive_single_ops(ctx, out, judge, *, max_nodes, alphabet, typed=False, 
 EQ_SIBLING_SPECS = [
     [({"a": 0, "did": 1}, []), ({"a": 0, "did": 2}, [({"a": 0, "did": 3}, []), ({"a": 0, "did": 4}, [])]), ({"a": 0, "did": 5}, [])],
     [({"a": 18, "did": 1}, []), ({"a": 19, "did": 2}, []), ({"a": 18, "did": 3}, [({"a": 19, "did": 1}, []), ({"a": 18, "did": 2}, [])])],
+    # other data under the id (5) that the source tree's last top node carries
+    [({"a": 1, "did": 5}, []), ({"a": 2, "did": 6}, [({"a": 1, "did": 5}, [])])],
 ]
 
 
